@@ -16,8 +16,14 @@ pub(crate) struct CounterGuard {
 
 impl Drop for CounterGuard {
     fn drop(&mut self) {
+        #[cfg(eigerco_lumina_verif)]
+        crate::verif::sync::sched_point("guard:before-take");
         self.counter.take();
+        #[cfg(eigerco_lumina_verif)]
+        crate::verif::sync::sched_point("guard:after-take");
         self.notify.notify_waiters();
+        #[cfg(eigerco_lumina_verif)]
+        crate::verif::sync::sched_point("guard:after-notify");
     }
 }
 
@@ -38,12 +44,24 @@ impl Counter {
 
     /// Wait all guards to drop.
     pub(crate) async fn wait_guards(&mut self) {
+        #[cfg(eigerco_lumina_verif)]
+        crate::verif::sync::sched_point("wait:start");
         let mut notified = pin!(self.notify.notified());
+        #[cfg(eigerco_lumina_verif)]
+        crate::verif::sync::sched_point("wait:before-check");
 
         while Arc::strong_count(&self.counter) > 1 {
+            #[cfg(eigerco_lumina_verif)]
+            crate::verif::sync::sched_point("wait:after-check");
             notified.as_mut().await;
+            #[cfg(eigerco_lumina_verif)]
+            crate::verif::sync::sched_point("wait:woken");
             notified.set(self.notify.notified());
+            #[cfg(eigerco_lumina_verif)]
+            crate::verif::sync::sched_point("wait:before-check");
         }
+        #[cfg(eigerco_lumina_verif)]
+        crate::verif::sync::sched_point("wait:done");
     }
 }
 
